@@ -375,3 +375,23 @@ PLAN["C17"] = {
     "thorough": [{"test": "TestC17_Committed", "rapid": False, "timeout": 600},
                  {"test": "TestC17_Sweep", "checks": 60, "shards": 8, "cli": True, "timeout": 3000}],
 }
+
+PLAN["C12"] = {
+    "level": "exploration",
+    "rule": ("(Paths, rapid) drawn (mode, depth from {1,2,3,4,8,16,20,30,max,uniform}, batch 1..8); the constraint system is built through BuildR1CSX, built again, built while three other compilations run concurrently in the same process, "
+             "and exported by the built binary's 'r1cs' command in a fresh process with GOMAXPROCS in {1,2,3,16}; (SetupPaths) at small dimensions additionally through SetupX, ImportXSetup on key files written by the harness from that setup "
+             "(followed by proving with the imported system and verifying with the original), and in thorough through the CLI 'setup' (constraint-system section = file tail). Oracle (metamorphic): the SHA-256 of ConstraintSystem.WriteTo is identical "
+             "across every path, run and process for one triple, and different for different triples seen in the run; the system has exactly one public input besides the constant wire; imported systems keep their dimensions. "
+             "(Guard) deletion depth 32/33/64 is refused by BuildR1CSDeletion, SetupDeletion, ImportDeletionSetup and by the CLI 'r1cs' and 'setup' (non-zero exit, no output content). "
+             "Non-trivial = a triple compared across >= 2 different paths or >= 2 builds; distinct = SHA-1 of (triple, paths)."),
+    "assumptions": A_COMMON + ["'any scheduling' is sampled through GOMAXPROCS values, repetition and concurrent compilation only"],
+    "technique": "metamorphic property testing: the compiled system's digest as a function of (mode, depth, batch) only, across construction paths, repetitions and fresh processes",
+    "level_text": "Exploration: a few dozen (quick) to ~150 (thorough) triples, each compiled through 2-5 paths including fresh processes; the expensive setup/import paths at 2-6 small dimensions.",
+    "level_note": "compilation is assumed independent of anything but the triple; scheduling is sampled, not enumerated",
+    "quick": [{"test": "TestC12_Paths", "checks": 7, "shards": 4, "cli": True, "timeout": 1200},
+              {"test": "TestC12_SetupPaths", "rapid": False, "shards": 2, "cli": True, "timeout": 1200},
+              {"test": "TestC12_Guard", "rapid": False, "cli": True, "timeout": 600}],
+    "thorough": [{"test": "TestC12_Paths", "checks": 14, "shards": 10, "cli": True, "timeout": 3000},
+                 {"test": "TestC12_SetupPaths", "rapid": False, "shards": 6, "cli": True, "timeout": 3000},
+                 {"test": "TestC12_Guard", "rapid": False, "cli": True, "timeout": 600}],
+}
